@@ -140,8 +140,12 @@ func ruleFanout(r *Run, p *Prog, name string) {
 	for i, pa := range paths {
 		cs := cmpsOfEdges(pa.edges)
 		res := resolveOnIter(pa, hdr, errPhi)
-		accNil := hasCmp(cs, func(op token.Token, x, y ssa.Value) bool { return op == token.EQL && x == ssa.Value(errPhi) && isNilConst(y) })
-		accSet := hasCmp(cs, func(op token.Token, x, y ssa.Value) bool { return op == token.NEQ && x == ssa.Value(errPhi) && isNilConst(y) })
+		accNil := hasCmp(cs, func(op token.Token, x, y ssa.Value) bool {
+			return op == token.EQL && x == ssa.Value(errPhi) && isNilConst(y)
+		})
+		accSet := hasCmp(cs, func(op token.Token, x, y ssa.Value) bool {
+			return op == token.NEQ && x == ssa.Value(errPhi) && isNilConst(y)
+		})
 		dErr := hasCmp(cs, func(op token.Token, x, y ssa.Value) bool { return op == token.NEQ && isDestErr(x) && isNilConst(y) })
 		dOK := hasCmp(cs, func(op token.Token, x, y ssa.Value) bool { return op == token.EQL && isDestErr(x) && isNilConst(y) })
 		isLenP := func(v ssa.Value) bool {
@@ -331,7 +335,9 @@ func ruleErrorHandler(r *Run, p *Prog) {
 		cmps := pa.Cmps()
 		failed := hasCmp(cmps, func(op token.Token, x, y ssa.Value) bool { return op == token.NEQ && x == werr && isNilConst(y) })
 		succeeded := hasCmp(cmps, func(op token.Token, x, y ssa.Value) bool { return op == token.EQL && x == werr && isNilConst(y) })
-		hSet := hasCmp(cmps, func(op token.Token, x, y ssa.Value) bool { return op == token.NEQ && loadedGlobal(x) == eh && isNilConst(y) })
+		hSet := hasCmp(cmps, func(op token.Token, x, y ssa.Value) bool {
+			return op == token.NEQ && loadedGlobal(x) == eh && isNilConst(y)
+		})
 		var ok bool
 		var key, d string
 		switch {
